@@ -13,6 +13,8 @@ ids = args or sorted(os.path.basename(d) for d in glob.glob("/verif/seeded/C*"))
 def one(sid):
     d = "/verif/seeded/" + sid
     meta = json.load(open(d + "/meta.json"))
+    if meta.get("retired"):
+        return sid, "retired"
     props = [meta["property"]] + [p for p in meta.get("also_try", [])]
     wt = tempfile.mkdtemp(prefix="seed_wt.", dir="/tmp"); os.rmdir(wt)
     if subprocess.run(["git", "-C", "/repo", "worktree", "add", "--detach", wt, "HEAD"], capture_output=True).returncode != 0:
